@@ -63,6 +63,7 @@ impl FontInfo {
 }
 
 pub struct Generator {
+    root: String,
     aots: Vec<String>,
     small: Vec<String>,
     large: Vec<String>,
@@ -120,6 +121,7 @@ impl Generator {
         let mut files = Vec::new();
         walk_dir(std::path::Path::new(root), &mut files);
         let mut g = Generator {
+            root: root.to_string(),
             aots: Vec::new(),
             small: Vec::new(),
             large: Vec::new(),
@@ -377,6 +379,7 @@ impl Generator {
             font_index: 0,
             mode: Mode::Provider,
             rewrap_woff2: false,
+            wrap_woff2: false,
             surgery: Vec::new(),
             faults: Vec::new(),
             ops: Vec::new(),
@@ -405,7 +408,32 @@ impl Generator {
             // installed tables exist only in the disk model
             trace.mode = Mode::Provider;
             trace.rewrap_woff2 = false;
+            trace.wrap_woff2 = false;
             trace.faults.retain(|f| f.targets().iter().all(|t| t != "file" && t != "inner"));
+        }
+        // Serve a bare sfnt through the real WOFF2 provider (null transforms): table faults only.
+        let p_wrap = match prop {
+            "C03" => 6,
+            "C09" => 8,
+            "C02" => 0,
+            _ => 5,
+        };
+        if !info.broken
+            && info.container == Container::Sfnt
+            && trace.mode == Mode::Provider
+            && rng.pct(p_wrap)
+            && trace.faults.iter().all(|f| !matches!(f, Fault::ProviderErr { .. }))
+        {
+            trace.mode = Mode::Image;
+            trace.wrap_woff2 = true;
+            if prop == "C09" && rng.pct(60) {
+                trace.ops.insert(0, Op::Reconstruct);
+            }
+            if prop == "C03" {
+                // pure decodes / writers at the end: byte-identical on fresh threads
+                let k = if info.axes > 0 { "Instance" } else { *rng.pick(&["Subset", "WholeFont", "Load"]) };
+                trace.ops.push(gen_op(&mut rng, &info, k));
+            }
         }
         if info.broken && trace.mode == Mode::Provider {
             trace.mode = Mode::Image;
@@ -561,6 +589,28 @@ impl Generator {
         let nops = 2 + rng.usize_below(cap);
         let mut ops: Vec<Op> = Vec::new();
         for _ in 0..nops {
+            if rng.pct(1) || (ops.is_empty() && rng.pct(4)) {
+                // decode another (possibly truncated) file on the same thread
+                let pool = if rng.pct(70) { &self.containers } else { &self.small };
+                if !pool.is_empty() {
+                    let font = rng.pick(pool).clone();
+                    let len = std::fs::metadata(format!("{}/{}", self.root, font))
+                        .map(|m| m.len() as usize)
+                        .unwrap_or(0);
+                    let cut = match rng.below(5) {
+                        0 | 1 => None,
+                        2 => Some(len / 2),
+                        3 => Some(len.saturating_sub(1 + rng.usize_below(64))),
+                        _ => Some(rng.usize_below(len.max(1))),
+                    };
+                    ops.push(Op::Decoy {
+                        font,
+                        index: if rng.pct(80) { 0 } else { rng.usize_below(4) },
+                        cut,
+                    });
+                    continue;
+                }
+            }
             if !ops.is_empty() && rng.pct(55) {
                 // near-miss or exact repeat of an earlier op
                 let base = rng.pick(&ops).clone();
